@@ -9,14 +9,19 @@ pairwise distinct) is the dict invariant, shown to hold for everything the model
 -/
 import Rpft.Lemmas.DataOps
 import Rpft.Gen.Tables
+import Rpft.Canon
 set_option linter.unusedSimpArgs false
 set_option linter.unusedVariables false
 namespace Rpft.Props.C11
 open Rpft Rpft.DataOps
 
-/-- T1: the operation names / order word / `Operation` fields of the model are those of the source -/
+/-- T1: the operation names / order word / `Operation` fields of the model are those of the source.
+Operation names and single-source operations are sets (distinct constants of an equality dispatch /
+a membership test): compared up to order.  The field order of `Operation` is exact (an operation
+written in one cell is read positionally). -/
 theorem tables_agree :
-    Gen.dataOpTypeNames = opTypeNames ∧ Gen.dataOpSingleSource = singleSourceTypes ∧
+    Canon.sameSet Gen.dataOpTypeNames opTypeNames ∧
+    Canon.sameSet Gen.dataOpSingleSource singleSourceTypes ∧
     Gen.dataOpOrderWords = [descendingWord] ∧
     Gen.dataOpFields = ["type".toList, "expression".toList, "order".toList] := by decide
 
